@@ -266,9 +266,10 @@ def _gen_lin(rng, big=False, cls=None):
     pm = rng.choice([0, 0, 0, 0, 1, 2]) if cls != "L" else 0
     ploidy = rng.choice([1, 2, 2, 2, 2, 3, 4])
     # marker effects: any sign pattern, exact zeros, whole-zero rows/columns now and then
-    u_a = _gmat(rng, p, t)
-    if rng.random() < 0.15: u_a = [[0.0] * t for _ in range(p)]
-    if rng.random() < 0.15: u_a[rng.randrange(p)] = [0.0] * t
+    u_a = _gmat(rng, p, t, pzero=(0.25 if cls != "L" else rng.choice([0.0, 0.0, 0.25])))
+    if cls != "L" or any(x == 0.0 for r in u_a for x in r):
+        if rng.random() < 0.15: u_a = [[0.0] * t for _ in range(p)]
+        if rng.random() < 0.15: u_a[rng.randrange(p)] = [0.0] * t
     u_d = None
     if cls == "AD":
         u_d = None if rng.random() < 0.15 else _gmat(rng, p, t)
@@ -342,7 +343,7 @@ def _popvar(col):
     n = len(col); mu = sum(col, F(0)) / n
     return sum(((x - mu) ** 2 for x in col), F(0)) / n
 
-def _defs(case, perm=None, ploidy_for_raw=None):
+def _defs(case, perm=None, ploidy_for_raw=None, raw_het=False, asis_L=False):
     """the textbook definitions, evaluated with exact rationals on the inputs of the case"""
     n = len(case["dos"]); p = len(case["u_a"]); t = len(case["beta"][0]); q = len(case["beta"])
     pm = 0 if case["u_misc"] is None else len(case["u_misc"])
@@ -355,6 +356,7 @@ def _defs(case, perm=None, ploidy_for_raw=None):
     if case["cls"] == "AD":
         ud = _FM(case["u_d"]) if case["u_d"] is not None else [[F(0)] * t for _ in range(p)]
     het = [[1 if (d != 0 and d != ploidy) else 0 for d in r] for r in dos]
+    if raw_het: het = [[1 if d == 1 else 0 for d in r] for r in dos]          # as coded for raw arrays: heterozygous <=> dosage == 1
     D = {}
     D["loc"] = [beta[0][k] + sum((beta[r][k] for r in range(1, q)), F(0)) / q for k in range(t)]
     D["bv0"] = [[sum((dos[i][j] * ua[j][k] for j in range(p)), F(0)) for k in range(t)] for i in range(n)]          # Z u_a
@@ -379,6 +381,9 @@ def _defs(case, perm=None, ploidy_for_raw=None):
     sg = [[(ua[j][k] > 0) - (ua[j][k] < 0) for k in range(t)] for j in range(p)]
     fa = [[c[j] if sg[j][k] > 0 else (N - c[j] if sg[j][k] < 0 else 0) for k in range(t)] for j in range(p)]
     da = [[c[j] if sg[j][k] < 0 else (N - c[j] if sg[j][k] > 0 else 0) for k in range(t)] for j in range(p)]
+    if asis_L:      # DenseLinearGenomicModel as coded: no reset of neutral alleles, availability tested with != 0
+        fa = [[c[j] if sg[j][k] > 0 else N - c[j] for k in range(t)] for j in range(p)]
+        da = [[c[j] if sg[j][k] < 0 else N - c[j] for k in range(t)] for j in range(p)]
     D["facount"] = fa; D["dacount"] = da
     D["fafreq"] = [[F(x, N) for x in r] for r in fa]; D["dafreq"] = [[F(x, N) for x in r] for r in da]
     D["faavail"] = [[x > 0 for x in r] for r in fa]; D["daavail"] = [[x > 0 for x in r] for r in da]
@@ -407,19 +412,18 @@ def _check_bv(bad, tag, bv, want, case, gtfmt, perm=None):
         mean = [sum((want[i][k] for i in range(n)), F(0)) / n for k in range(t)]
         if not _vec_close(bv["location"], mean): bad.append("%s location is not the mean value" % tag)
 
-def _pred_fmt(bad, case, R, fmt, D, tagp, perm=None):
+def _pred_fmt(bad, case, R, fmt, D, tagp, perm=None, asis=()):
     cls = case["cls"]; raw = fmt == "raw"
     pm = 0 if case["u_misc"] is None else len(case["u_misc"])
     tag = lambda s: "%s%s[%s]" % (tagp, s, fmt)
-    diploid_raw_issue = False
-    # the raw-array path of the dominance model codes heterozygotes as dosage == 1 (documented for {0,1,2} arrays only)
     gv0, gv, var_G, yhat, score = D["gv0"], D["gv"], D["var_G"], D["yhat"], D["score"]
+    D0 = D.get("_obj", D)         # *_numpy variants are handed the matrix-object design whatever the representation
     if not _mat_close(R["gebv_numpy"], D["bv0"], True): bad.append(tag("gebv_numpy") + " != dosage x effects")
     _check_bv(bad, tag("gebv"), R["gebv"], D["bv"], case, fmt, perm)
     if cls != "L":
-        if not _mat_close(R["gegv_numpy"], gv0, True): bad.append(tag("gegv_numpy") + " != dosage x effects + heterozygosity x dominance effects")
+        if not _mat_close(R["gegv_numpy"], D0["gv0"], True): bad.append(tag("gegv_numpy") + " != dosage x effects + heterozygosity x dominance effects")
         _check_bv(bad, tag("gegv"), R["gegv"], gv, case, fmt, perm)
-    if not _mat_close(R["predict_numpy"], yhat, True): bad.append(tag("predict_numpy") + " != X beta + Z u")
+    if not _mat_close(R["predict_numpy"], D0["yhat"], True): bad.append(tag("predict_numpy") + " != X beta + Z u")
     if pm == 0:
         _check_bv(bad, tag("predict"), R["predict"], yhat, case, fmt, perm)
     elif not (isinstance(R["predict"], dict) and R["predict"].get("exc") == "ValueError"):
@@ -427,15 +431,16 @@ def _pred_fmt(bad, case, R, fmt, D, tagp, perm=None):
     for nm in ("score_numpy", "score") if pm == 0 else ("score_numpy",):
         H = R[nm]
         if not isinstance(H, list): bad.append(tag(nm) + " raised"); continue
+        sc = D0["score"] if nm == "score_numpy" else score
         for k, h in enumerate(H):
             x = _fr(h)
-            if score[k] is None:
+            if sc[k] is None:
                 if x is not None: bad.append(tag(nm) + " finite although the total sum of squares is zero")
-            elif not _close(x, score[k]): bad.append(tag(nm) + " != 1 - SSE/SST")
+            elif not _close(x, sc[k]): bad.append(tag(nm) + " != 1 - SSE/SST")
     for nm in ("var_A", "var_A_numpy"):
         if not _vec_close(R[nm], D["var_A"]): bad.append(tag(nm) + " != population variance of the breeding values")
     for nm in ("var_G", "var_G_numpy"):
-        if not _vec_close(R[nm], var_G): bad.append(tag(nm) + " != population variance of the genotypic values")
+        if not _vec_close(R[nm], var_G if nm == "var_G" else D0["var_G"]): bad.append(tag(nm) + " != population variance of the genotypic values")
     va = D["var_a_raw"] if raw else D["var_a"]
     if not _vec_close(R["var_a"], va): bad.append(tag("var_a") + " != ploidy^2 sum u^2 p(1-p)")
     H = R["bulmer"]
@@ -444,6 +449,7 @@ def _pred_fmt(bad, case, R, fmt, D, tagp, perm=None):
         for k, h in enumerate(H):
             x = _fr(h)
             if va[k] == 0:
+                if "L-recip" in asis and raw: continue
                 if not math.isnan(_fh(h)): bad.append(tag("bulmer") + " is not NaN although the genic variance is zero")
             elif not _close(x, D["var_A"][k] / va[k]): bad.append(tag("bulmer") + " != var_A / var_a")
     if not raw:
@@ -453,17 +459,25 @@ def _pred_fmt(bad, case, R, fmt, D, tagp, perm=None):
             if isinstance(got, dict): bad.append(tag(f) + " raised"); continue
             if "freq" in f:
                 if not _mat_close(got, want, False): bad.append(tag(f) + " != count / (ploidy * ntaxa)")
+            elif "L-neutral" in asis and "avail" in f:
+                if got != [[x != 0 for x in r] for r in D[f[:2] + "count"]]: bad.append(tag(f) + " differs from count != 0")
             elif got != [[(bool(x) if isinstance(x, bool) else x) for x in r] for r in want]:
                 bad.append(tag(f) + " differs from its definition")
 
-def _pred_lin(case, out):
+def _pred_lin(case, out, asis=()):
+    """asis: names of known deviations whose as-coded semantics replace the property's definition (used by classify only)"""
     bad = []
-    D = _defs(case, None, case["ploidy_arg"])
-    Dp = _defs(case, case["perm"], case["ploidy_arg"])
+    aL = "L-neutral" in asis
+    D = _defs(case, None, case["ploidy_arg"], asis_L=aL)
+    Dp = _defs(case, case["perm"], case["ploidy_arg"], asis_L=aL)
+    Dr, Dpr = D, Dp
+    if "AD-raw" in asis:
+        Dr = _defs(case, None, case["ploidy_arg"], raw_het=True); Dpr = _defs(case, case["perm"], case["ploidy_arg"], raw_het=True)
+        Dr["_obj"] = D; Dpr["_obj"] = Dp
     for fmt, R in out["fmt"].items():
-        _pred_fmt(bad, case, R, fmt, D, "")
+        _pred_fmt(bad, case, R, fmt, Dr if fmt == "raw" else D, "", None, asis)
     for fmt, R in out["perm"].items():
-        _pred_fmt(bad, case, R, fmt, Dp, "permuted ", case["perm"])
+        _pred_fmt(bad, case, R, fmt, Dpr if fmt == "raw" else Dp, "permuted ", case["perm"], asis)
     # equivariance stated directly between the two runs: exact for the raw products
     f0 = "unphased"
     a, b = out["fmt"][f0]["gebv_numpy"], out["perm"][f0]["gebv_numpy"]
@@ -771,3 +785,164 @@ def _emit_fit(case, out):
         if x is not None:
             parts.append("rr_rerun_agrees %d%%nat Zg %s %s %s %d%%nat %s %s" % (p, y, E.q(ridge), _q(GS_ATOL), GS_MAXITER, E.q(beta), E.lst(u, E.q)))
     return "(let Zg := %s in\n (%s))" % (E.lst2(Z, E.z), "\n   && ".join(parts))
+
+
+# ------------------------------------------------------------------------------------------------ known findings, evidence helpers
+BAD_N = [49, 98, 103, 107]      # sizes at which 1/N * N != 1 in binary64
+
+def _gs_ran_out(A, b):
+    """did the implementation's own solver stop because of the iteration limit? (the result still changes with one more sweep allowed)"""
+    from pybrops.model.gmod.rrBLUPModel0 import gauss_seidel
+    A = numpy.array([[float(v) for v in r] for r in A]); b = numpy.array([float(v) for v in b])
+    with numpy.errstate(all="ignore"):
+        return not numpy.array_equal(gauss_seidel(A, b, GS_ATOL, GS_MAXITER), gauss_seidel(A, b, GS_ATOL, GS_MAXITER + 1))
+
+def classify(case, out, clauses):
+    """narrow match of a failing case to a known finding: every deviation from the property must be explained by the as-coded
+    semantics of exactly that finding"""
+    if "exc" in out or not clauses: return None
+    if case["kind"] == "fit":
+        if not all("penalised normal equations not solved" in c for c in clauses): return None
+        for k in range(len(case["Y"][0])):
+            mask, Zp, pp, mu, yc, ridge, A, b = _fit_parts(case, out, k)
+            if any("(trait %d)" % k in c for c in clauses) and not _gs_ran_out(A, b): return None
+        return "C04-gs-maxiter"
+    if case["kind"] == "lin":
+        cls = case["cls"]
+        if cls == "AD" and case["ploidy"] != 2 and all("[raw]" in c for c in clauses):
+            return "C04-dominance-raw-diploid" if not _pred_lin(case, out, asis=("AD-raw",)) else None
+        if cls == "L":
+            zero = any(x == 0 for r in case["u_a"] for x in r)
+            badn = case["ploidy_arg"] is not None and (case["ploidy_arg"] * len(case["dos"])) in BAD_N
+            neutral = any(("count" in c or "freq" in c or "avail" in c or "fixed" in c) for c in clauses)
+            recip = any("bulmer[raw] is not NaN" in c for c in clauses)
+            if neutral and not recip and zero and not _pred_lin(case, out, asis=("L-neutral",)): return "C04-dlgm-neutral-alleles"
+            if recip and not neutral and badn and not _pred_lin(case, out, asis=("L-recip",)): return "C04-dlgm-reciprocal"
+            if recip and neutral and badn and zero and not _pred_lin(case, out, asis=("L-recip", "L-neutral")): return "C04-dlgm-neutral-alleles"
+    return None
+
+def nontrivial(case, out):
+    if "exc" in out: return False
+    if case["kind"] == "lin":
+        n = len(case["dos"]); p = len(case["u_a"]); N = case["ploidy"] * n
+        c = [sum(r[j] for r in case["dos"]) for j in range(p)]
+        flat = [x for r in case["u_a"] for x in r]
+        return (n >= 2 and any(0 < x < N for x in c) and any(x > 0 for x in flat) + any(x < 0 for x in flat) + any(x == 0 for x in flat) >= 2
+                and case["perm"] != list(range(n)))
+    if case["kind"] == "gs":
+        return len(case["b"]) >= 2 and case["maxiter"] >= 2 and case["atol"] > 0 and any(v != 0 for v in case["b"])
+    if case["kind"] == "fit":
+        Z = case["Z"]; p = len(Z[0])
+        mono = [all(r[j] == Z[0][j] for r in Z) for j in range(p)]
+        return (not all(mono)) and len(Z) > p - sum(mono)
+    return False
+
+def describe(case, out):
+    d = {"kind": case["kind"], "raised": "exc" in out}
+    if case["kind"] == "lin":
+        n = len(case["dos"]); p = len(case["u_a"])
+        flat = [x for r in case["u_a"] for x in r]
+        d.update({"class": case["cls"], "ploidy": case["ploidy"], "ntaxa": "1" if n == 1 else ("2-8" if n <= 8 else "9+"), "nmarkers": "1" if p == 1 else ("2-6" if p <= 6 else "7+"),
+                  "ntraits": len(case["beta"][0]), "nfixed": len(case["beta"]), "misc_effects": 0 if not case["u_misc"] else len(case["u_misc"]),
+                  "phased_given": case["phased"] is not None, "taxa_labels": case["taxa"] is not None, "taxa_groups": case["taxa_grp"] is not None,
+                  "effect_signs": "".join(sorted({"+" if x > 0 else ("-" if x < 0 else "0") for x in flat})),
+                  "u_d": "n/a" if case["cls"] != "AD" else ("None" if case["u_d"] is None else "given"),
+                  "size_with_inexact_reciprocal": case["ploidy"] * n in BAD_N})
+    elif case["kind"] == "gs":
+        A = case["A"]; p = len(A)
+        d.update({"unknowns": p, "maxiter": case["maxiter"], "atol": "0" if case["atol"] == 0 else ("<=2^-8" if case["atol"] <= 2 ** -8 else ">2^-8"),
+                  "symmetric": all(A[i][j] == A[j][i] for i in range(p) for j in range(p)), "zero_pivot": any(A[i][i] == 0 for i in range(p))})
+    else:
+        Z = case["Z"]; p = len(Z[0]); mono = sum(all(r[j] == Z[0][j] for r in Z) for j in range(p))
+        d.update({"via": case["via"], "ntraits": len(case["Y"][0]), "monomorphic_markers": mono, "well_determined": len(Z) > p - mono,
+                  "rerun_in_coq": ("rr_rerun_agrees" in (emit_case(case, out) or "")) if "exc" not in out else False})
+    return d
+
+def _special_cases(quick):
+    """fixed populations at the sizes where (1/N)*N != 1 in binary64 (regression witnesses of the reciprocal defect), every class"""
+    out = []
+    combos = [(c, 49, 1) for c in ("A", "AD", "RR", "L")] + [("A", 49, 2), ("L", 49, 2)]
+    if not quick: combos += [(c, n, pl) for c in ("A", "AD", "RR", "L") for n, pl in ((49, 2), (103, 1), (107, 1))]
+    for cls, n, pl in combos:
+        out.append({"kind": "lin", "cls": cls, "beta": [[1.0]], "u_misc": None, "u_a": [[1.5], [-2.0]], "u_d": None, "trait": None, "ploidy": pl,
+                    "phased": None, "dos": [[pl, 0]] * n, "taxa": None, "taxa_grp": None, "X": [[1.0]] * n, "Zm": [[]] * n,
+                    "Y": [[float(i % 3)] for i in range(n)], "perm": list(range(1, n)) + [0], "split": 1, "ploidy_arg": pl})
+    return out
+
+def gen_cases(rng, tier):
+    quick = tier == "quick"
+    nl, ng, nf = (230, 120, 50) if quick else (2600, 1200, 500)
+    cases = []
+    for i in range(nl):
+        cases.append(_gen_lin(rng, big=(not quick and i % 5 == 0)))
+    for i in range(ng):
+        cases.append(_gen_gs(rng, big=(not quick and i % 4 == 0)))
+    for i in range(nf):
+        cases.append(_gen_fit(rng, big=(not quick and i % 4 == 0)))
+    # the large special cases are spread over the shards
+    sp = _special_cases(quick)
+    step = max(1, len(cases) // (len(sp) + 1))
+    for k, c in enumerate(sp):
+        cases.insert((k + 1) * step + k, c)
+    return cases
+
+def shrink(case, fails):
+    """greedy structural reduction while the predicate still fails"""
+    cur = copy.deepcopy(case)
+    def attempt(t):
+        nonlocal cur
+        try:
+            if fails(t): cur = t; return True
+        except Exception: pass
+        return False
+    if cur["kind"] == "lin":
+        changed = True
+        while changed:
+            changed = False
+            n = len(cur["dos"]); p = len(cur["u_a"]); t = len(cur["beta"][0])
+            for k in range(t if t > 1 else 0):                                            # drop a trait
+                c = copy.deepcopy(cur)
+                for key in ("beta", "u_a", "u_misc", "u_d", "Y"):
+                    if c.get(key): c[key] = [r[:k] + r[k + 1:] for r in c[key]]
+                if c["trait"]: c["trait"] = c["trait"][:k] + c["trait"][k + 1:]
+                if attempt(c): changed = True; break
+            if changed: continue
+            for j in range(p if p > 1 else 0):                                            # drop a marker
+                c = copy.deepcopy(cur)
+                c["u_a"] = c["u_a"][:j] + c["u_a"][j + 1:]
+                if c.get("u_d"): c["u_d"] = c["u_d"][:j] + c["u_d"][j + 1:]
+                c["dos"] = [r[:j] + r[j + 1:] for r in c["dos"]]
+                if c["phased"]: c["phased"] = [[r[:j] + r[j + 1:] for r in ph] for ph in c["phased"]]
+                c["split"] = min(c["split"], p - 1)
+                if attempt(c): changed = True; break
+            if changed: continue
+            for i in range(n if n > 1 else 0):                                            # drop a taxon
+                c = copy.deepcopy(cur)
+                for key in ("dos", "X", "Zm", "Y", "taxa", "taxa_grp"):
+                    if c.get(key) is not None: c[key] = c[key][:i] + c[key][i + 1:]
+                if c["phased"]: c["phased"] = [ph[:i] + ph[i + 1:] for ph in c["phased"]]
+                c["perm"] = [x - (x > i) for x in c["perm"] if x != i]
+                if attempt(c): changed = True; break
+            if changed: continue
+            for key, val in (("phased", None), ("taxa", None), ("taxa_grp", None), ("trait", None)):
+                if cur.get(key) is not None:
+                    c = copy.deepcopy(cur); c[key] = val
+                    if attempt(c): changed = True; break
+    elif cur["kind"] == "fit":
+        changed = True
+        while changed:
+            changed = False
+            n = len(cur["Z"]); p = len(cur["Z"][0]); t = len(cur["Y"][0])
+            for k in range(t if t > 1 else 0):
+                c = copy.deepcopy(cur); c["Y"] = [r[:k] + r[k + 1:] for r in c["Y"]]
+                if c["trait"]: c["trait"] = c["trait"][:k] + c["trait"][k + 1:]
+                if attempt(c): changed = True; break
+            if changed: continue
+            for j in range(p if p > 1 else 0):
+                c = copy.deepcopy(cur); c["Z"] = [r[:j] + r[j + 1:] for r in c["Z"]]
+                if attempt(c): changed = True; break
+            if changed: continue
+            for i in range(n if n > 3 else 0):
+                c = copy.deepcopy(cur); c["Z"] = c["Z"][:i] + c["Z"][i + 1:]; c["Y"] = c["Y"][:i] + c["Y"][i + 1:]
+                if attempt(c): changed = True; break
+    return cur
